@@ -1,5 +1,6 @@
 (* Model side of the M-EXPR correspondence (C22, C19, C20).  Same line protocol as harness/cmd/c22:
-     P <TAB> ctx <TAB> tree   ->  tokens of (pr e) <TAB> tree of (norm e) <TAB> result of parse (pr e)
+     P <TAB> ctx <TAB> tree   ->  tokens of (pr e) <TAB> tree of (norm e) <TAB> result of parse (pr e) <TAB> flags
+                                  flags = v/- (validb) p/- (posokb) l/- (nolamb) n/- (noparb) a/- (noaddb)
      T <TAB> tok tok ...      ->  ERR | UNSUP | FUEL | tree
    A tree that uses a node kind outside the model gives "-" in every field. *)
 open Exprmodel
@@ -128,8 +129,10 @@ let () =
          (try
             let e = build (parse_sx tree) in
             let ts = pr e in
-            print_string (String.concat " " (List.map show_tok ts) ^ "\t" ^ show (norm e) ^ "\t" ^ show_res (parse ts))
-          with Outside -> print_string "-\t-\t-" | Bad m -> print_string ("BADCASE " ^ m))
+            let fl b c = if b then c else "-" in
+            print_string (String.concat " " (List.map show_tok ts) ^ "\t" ^ show (norm e) ^ "\t" ^ show_res (parse ts) ^ "\t" ^
+                          fl (validb e) "v" ^ fl (posokb e) "p" ^ fl (nolamb e) "l" ^ fl (noparb e) "n" ^ fl (noaddb e) "a")
+          with Outside -> print_string "-\t-\t-\t-" | Bad m -> print_string ("BADCASE " ^ m))
      | ["T"; toks] ->
          (try
             let ts = List.map read_tok (List.filter (fun s -> s <> "") (String.split_on_char ' ' toks)) in
